@@ -238,17 +238,24 @@ class World:
             err = err_kind(e)
         return {'error': err, 'trace': self.backend.trace[before:], 'op': {'kind': 'clean', 'user': self.model_user(ui)}}
 
-    def restore(self, ui, snapshot_regex=None, file_regex=None, repo=None, label='r'):
-        """→ (error kind | None, {recorded path: bytes})"""
+    def restore(self, ui, snapshot_regex=None, file_regex=None, repo=None, label='r', over=None):
+        """→ (error kind | None, {recorded path: bytes}).  `over` = {recorded path: bytes}: the target directory is not empty but holds these
+        files — what an EARLIER restore (another selection) left there, each with the mtime its snapshot recorded; the result is then the
+        files this restore REPORTS, with the bytes found on disk afterwards"""
         repo = repo or self.repo(ui)
         tgt = self.scratch.dir()
+        if over:
+            R.write_tree(tgt, {p.lstrip('/'): (v, 10 ** 18 + len(v)) for p, v in over.items()})
         try:
-            R.restore(repo, tgt, snapshot_regex=snapshot_regex, file_regex=file_regex)
+            res = R.restore(repo, tgt, snapshot_regex=snapshot_regex, file_regex=file_regex)
         except Exception as e:  # noqa: BLE001
             return err_kind(e), None
         got = R.read_tree(tgt)
         import shutil
         out = {'/' + os.fsdecode(k): v[0] for k, v in got.items()}
+        if over:
+            reported = {str(f) for f in getattr(res, 'files', [])}
+            out = {p: v for p, v in out.items() if p in reported or p not in over}
         shutil.rmtree(tgt, ignore_errors=True)
         return None, out
 
